@@ -402,6 +402,13 @@ pub fn gen_points_for<const K: usize>(r: &mut Rng, t: &AffTree<K>, count: usize)
             let rest: f64 = (0..n).filter(|i| *i != j).map(|i| a[i] * x[i]).sum();
             x[j] = (b - rest) / a[j];
             if x[j].is_finite() && (x[j] * 64.0).fract() == 0.0 && a.dot(&x) == b && x[j].abs() < 1e4 {
+                // ... and points a hair (2^-30, exactly representable) off the hyperplane on either side: the decision
+                // is an exact sign test, a tolerance would route them to the wrong side
+                for sgn in [1.0f64, -1.0] {
+                    let mut y = x.clone();
+                    y[j] += sgn * (2.0f64).powi(-30);
+                    pts.push(y);
+                }
                 pts.push(x);
             }
         }
